@@ -136,6 +136,21 @@ func observeC02(r *astRun) c02Obs {
 		}
 		if p := en.e.Package(); p != nil {
 			rec.Pkg = p.ProtoName().String()
+			// the package an entity answers is THE package of that name: the object `Packages()` holds, and
+			// that object lists the entity's file (a stale twin with the right name is not it)
+			if q := r.ast.Packages()[rec.Pkg]; q != p {
+				rec.Pkg = "\x00stale:" + rec.Pkg
+			} else if f := en.e.File(); f != nil {
+				listed := false
+				for _, pf := range q.Files() {
+					if pf == f {
+						listed = true
+					}
+				}
+				if !listed {
+					rec.Pkg = "\x00unlisted:" + rec.Pkg
+				}
+			}
 		} else {
 			rec.Pkg = "\x00nil"
 		}
